@@ -74,10 +74,14 @@ def token_sites(c: Ctx) -> list[TokSite]:
                 if push_b in cs.callees and push_i in cs.callees:
                     via = "push:any"
                 te, ge, ne = _arg(n, 0, "ttype"), _arg(n, 1, "tag"), _arg(n, 2, "nesting")
-                out.append(TokSite(f, n, via, te, ge, ne, literal_strs(te)))
+                ts_ = TokSite(f, n, via, te, ge, ne, literal_strs(te))
+                _post_stores(f, n, ts_)
+                out.append(ts_)
             elif cs.kind == "ctor" and cs.detail == "Token":
                 te, ge, ne = _arg(n, 0, "type"), _arg(n, 1, "tag"), _arg(n, 2, "nesting")
-                out.append(TokSite(f, n, "Token", te, ge, ne, literal_strs(te)))
+                ts_ = TokSite(f, n, "Token", te, ge, ne, literal_strs(te))
+                _post_stores(f, n, ts_)
+                out.append(ts_)
         # retype groups: consecutive stores X.type = ..., X.tag = ..., X.nesting = ... on the same receiver
         groups: dict[tuple[str, int], TokSite] = {}
         for blk in _blocks(f.node):
@@ -108,6 +112,25 @@ def token_sites(c: Ctx) -> list[TokSite]:
                         cur = None
     out.sort(key=lambda t: (t.func.qual, t.lineno))
     return out
+
+
+def _post_stores(f: Func, call: ast.Call, ts: TokSite) -> None:
+    """Field stores `X.attr = v` that follow `X = push(...)` / `X = Token(...)` in the same block, until X is rebound."""
+    par = f.module.parents.get(call)
+    if not (isinstance(par, ast.Assign) and par.value is call and len(par.targets) == 1 and isinstance(par.targets[0], ast.Name)):
+        return
+    name = par.targets[0].id
+    ts.receiver = name
+    for blk in _blocks(f.node):
+        if par in blk:
+            for s in blk[blk.index(par) + 1:]:
+                if isinstance(s, ast.Assign) and any(isinstance(t, ast.Name) and t.id == name for t in s.targets):
+                    break
+                if isinstance(s, ast.Assign) and len(s.targets) >= 1:
+                    for t in s.targets:
+                        if isinstance(t, ast.Attribute) and isinstance(t.value, ast.Name) and t.value.id == name:
+                            ts.stores.setdefault(t.attr, s.value)
+            break
 
 
 def _blocks(fn: ast.AST):
